@@ -17,7 +17,7 @@ import os
 import random
 
 from paramiko import (SFTP_NO_SUCH_FILE, SFTP_PERMISSION_DENIED, SFTP_FAILURE, SFTP_BAD_MESSAGE,
-                      SFTP_NO_CONNECTION, SFTP_CONNECTION_LOST, SFTP_OP_UNSUPPORTED)
+                      SFTP_NO_CONNECTION, SFTP_CONNECTION_LOST, SFTP_OP_UNSUPPORTED, SFTP_EOF)
 
 from sim import core
 from sim.core import Violation, SimBudget, SimDeadlock
@@ -85,7 +85,8 @@ def gen_case(sim):
     fault = None
     if fk in (1, 2, 3):
         k = sim.choose(nchunks + 1) if nchunks <= 8 else sim.choose(nchunks + 1)
-        fault = ["reject", "write" if is_put else "read", k, CODES[sim.choose(len(CODES))]]
+        codes = CODES + (SFTP_EOF,) if is_put else CODES    # EOF to a read is a shorter file; to a write it is a refusal
+        fault = ["reject", "write" if is_put else "read", k, codes[sim.choose(len(codes))]]
     elif fk == 4 and not is_put:
         fault = ["short_reads"]
     elif fk == 5:
